@@ -21,7 +21,7 @@ def obligations(repo):
     for e, oid in (("h_rt", "C10.rt"), ("h_idem", "C10.idem")):
         obs.append(dict(id=oid, prop="C10", harness=RT, entry=e, include_repo=["src", "src/nanoisa"],
                         unwindset=["crc32_init.0:257", "crc32_init.1:257", "nvm_crc32.0:160"], unwind=8, object_bits=10,
-                        strength=SHAPE, functions=["nvm_serialize", "nvm_deserialize", "nvm_crc32"], timeout=900,
-                        checks=["--bounds-check", "--pointer-check"], tier="thorough" if e == "h_idem" else "quick",
+                        strength=SHAPE, functions=["nvm_serialize", "nvm_deserialize", "nvm_crc32"], timeout=3600,
+                        checks=["--bounds-check", "--pointer-check"], tier="thorough",   # the real CRC over ~110 symbolic bytes on both sides: > 15 min
                         must_have=[r"C10\.", r"COVER"], min_checks=100))
     return obs
